@@ -195,6 +195,8 @@ def calibrate(project, parset: ParameterSet, pars_to_adjust, output_quantities, 
             x0.append(par.y_factor[pop_name])
         xmin.append(scale_min)
         xmax.append(scale_max)
+        if not (scale_min <= x0[-1] <= scale_max):
+            raise Exception('The starting value %g of the calibration factor for "%s" (%s) is outside the bounds [%g, %g] given for it - change the bounds or the starting value' % (x0[-1], par_name, pop_name, scale_min, scale_max))
 
     original_sim_end = project.settings.sim_end
     project.settings.sim_end = min(project.data.tvec[-1], original_sim_end)
